@@ -1,6 +1,7 @@
 import Adc.Wire
 import Adc.Unitary
 import Adc.Symmetry
+import Adc.Wick
 /- Line-protocol driver: one JSON request per line on stdin, one JSON answer per line on stdout. -/
 open Lean Adc Adc.Wire
 
@@ -82,6 +83,18 @@ def handle (j : Json) : P Json := do
       pure (ops, ← pExpr (← fld p "e"))
     match expandExploit parts with
     | none => pure (Json.mkObj [("ok", false)])
+    | some e => pure (Json.mkObj [("ok", true), ("e", jExpr e)])
+  | "wick" =>        -- C01: model of wicks on an operator expression
+    let pOp (o : Json) : P Op := do pure { cr := ← (← fld o "cr").getBool?, idx := ← pIdx (← fld o "i") }
+    let ts ← (← arr (← fld j "e")).toList.mapM fun t => do
+      let os ← (← arr (← fld t "o")).toList.mapM pObj
+      let items ← (← arr (← fld t "ops")).toList.mapM fun it => do
+        match it.getObjVal? "no" with
+        | .ok l => pure (OpItem.no (← (← arr l).toList.mapM pOp))
+        | .error _ => pure (OpItem.op (← pOp it))
+      pure ({ coef := ← pRat (← fld t "c"), objs := os, items := items, contr := ← pIdxs (← fld t "x") } : OpTerm)
+    match wickExpr ts with
+    | none => pure (Json.mkObj [("ok", false), ("why", "general index in a normal-ordered group")])
     | some e => pure (Json.mkObj [("ok", true), ("e", jExpr e)])
   | "ordersubs" =>   -- C08: order_substitutions
     let m ← pSub (← fld j "m")
